@@ -97,7 +97,10 @@ def apply_special(fmt, obj, name, k):
             if not kids:
                 return None
             p, v = kids[k % len(kids)]
-            v.arches = set(v.arches) | set(["s390x-not-in-parent"])
+            if k % 2:
+                v.arches.add("s390x-not-in-parent")          # in place
+            else:
+                v.arches = set(v.arches) | set(["s390x-not-in-parent"])
             return "%s.arches" % v.uid, 2
         if name == "misaligned-uid":
             if not variants:
@@ -120,7 +123,11 @@ def apply_special(fmt, obj, name, k):
         img = imgs[k % len(imgs)]
         if name == "additional-variants-on-non-unified":
             img.unified = False
-            img.additional_variants = ["Server"]
+            if k % 2 and isinstance(img.additional_variants, list):
+                del img.additional_variants[:]
+                img.additional_variants.append("Server")     # in place
+            else:
+                img.additional_variants = ["Server"]
         else:
             img.unified = True
             img.additional_variants = ["Server", None, ("Server",)][k % 3] if k % 3 else "Server"
@@ -155,8 +162,11 @@ def apply_special(fmt, obj, name, k):
     return None
 
 
-def corrupt_and_dump(fmt, desc, corruption, via_file=False):
+def corrupt_and_dump(fmt, desc, corruption, via_file=False, validated_first=False):
     obj = must("build-valid-object", build, fmt, desc)
+    if validated_first:
+        # the usual life of an object: built (or loaded), written once, THEN modified and written again
+        must("valid-object-refused", obj.dumps)
     main = None
     if corruption["kind"] == "row":
         cls, field, values, source = rules.RULES[fmt][corruption["row"] % len(rules.RULES[fmt])]
@@ -165,8 +175,15 @@ def corrupt_and_dump(fmt, desc, corruption, via_file=False):
             return None
         path, inst, depth = targets[corruption["target"] % len(targets)]
         value = values[corruption["value"] % len(values)]
-        setattr(inst, field, value)
-        label = "%s.%s = %r" % (path, field, value)
+        current = getattr(inst, field)
+        if corruption.get("in_place") and type(current) is type(value) and isinstance(current, (dict, list, set)):
+            # same container object, emptied / refilled in place (an observer comparing object identity sees no change)
+            current.clear()
+            (current.update if isinstance(current, (dict, set)) else current.extend)(value)
+            label = "%s.%s mutated in place to %r" % (path, field, value)
+        else:
+            setattr(inst, field, value)
+            label = "%s.%s = %r" % (path, field, value)
     else:
         names = rules.SPECIALS.get(fmt, [])
         if not names:
@@ -209,11 +226,11 @@ def _disc():
 
 
 corruption_strategy = st.fixed_dictionaries({"kind": st.sampled_from(["row", "row", "row", "special"]), "row": st.integers(0, 60), "target": st.integers(0, 40),
-                                              "value": st.integers(0, 12)})
+                                              "value": st.integers(0, 12), "in_place": st.booleans()})
 case_strategy = st.sampled_from(["composeinfo", "composeinfo", "composeinfo", "images", "images", "images", "treeinfo", "treeinfo", "treeinfo",
                                  "rpms", "modules", "extra_files", "discinfo"]).flatmap(
     lambda fmt: st.fixed_dictionaries({"format": st.just(fmt), "desc": _descs[fmt] if fmt in _descs else _disc(), "corruption": corruption_strategy,
-                                       "via_file": st.integers(0, 7).map(lambda i: i == 0)}))
+                                       "via_file": st.integers(0, 7).map(lambda i: i == 0), "validated_first": st.booleans()}))
 
 
 def corruption_case(case):
@@ -222,11 +239,11 @@ def corruption_case(case):
     obj = must("build-valid-object", build, fmt, case["desc"])
     text = must("valid-object-refused", obj.dumps)
     check(isinstance(text, str) and text, "valid-object-empty-text", "dumps() returned %r" % (text,))
-    res = corrupt_and_dump(fmt, case["desc"], case["corruption"], case.get("via_file"))
+    res = corrupt_and_dump(fmt, case["desc"], case["corruption"], case.get("via_file"), case.get("validated_first"))
     if res is None:
         return {"nontrivial": False, "labels": ["no-position", fmt]}
     label, depth = res
-    return {"nontrivial": depth >= 1, "labels": [fmt, "depth%d" % min(depth, 3)]}
+    return {"nontrivial": depth >= 1, "labels": [fmt, "depth%d" % min(depth, 3)] + (["after-successful-dump"] if case.get("validated_first") else [])}
 
 
 # ---- deterministic sweep: every (row, value) pair and every special on rich fixed objects ------------------------------
@@ -276,14 +293,18 @@ def table_cases():
         for row, (cls, field, values, source) in enumerate(rules.RULES[fmt]):
             for vi in range(len(values)):
                 for target in range(4):
-                    yield {"format": fmt, "corruption": {"kind": "row", "row": row, "target": target, "value": vi}}
+                    for validated_first in (False, True):
+                        yield {"format": fmt, "validated_first": validated_first,
+                               "corruption": {"kind": "row", "row": row, "target": target, "value": vi, "in_place": bool(target % 2)}}
         for row in range(len(rules.SPECIALS.get(fmt, []))):
             for target in range(6):
-                yield {"format": fmt, "corruption": {"kind": "special", "row": row, "target": target, "value": 0}}
+                for validated_first in (False, True):
+                    yield {"format": fmt, "validated_first": validated_first, "corruption": {"kind": "special", "row": row, "target": target, "value": 0}}
 
 
 def table_case(case):
-    res = corrupt_and_dump(case["format"], rich(case["format"]), case["corruption"], via_file=case["corruption"]["target"] == 3)
+    res = corrupt_and_dump(case["format"], rich(case["format"]), case["corruption"], via_file=case["corruption"]["target"] == 3,
+                           validated_first=case.get("validated_first", False))
     if res is None:
         raise Violation("harness-rich-object-lacks-position", "harness bug: rich %s object has no position for %r" % (case["format"], case["corruption"]))
     label, depth = res
